@@ -1,5 +1,6 @@
 (* C18 -- point-cloud filters and camera helpers match their brute-force definitions.
-   Statements only (over R unless a witness is computed over Q); proofs in Proofs/Cloud.v.
+   Statements only (over R unless a witness is computed over Q); proofs in Proofs/Cloud.v and, for the
+   second round at the end of the file, Proofs/Cloud2.v .. Cloud5.v.
    Distances: [Rdist o] / [Rpdist o pd] are the true norms (sqrt for o = L2); the executed model
    decides everything on the measure [dmeas] (squared for L2): C18_norm2_via_squares and
    C18_radius_test_is_norm_test tie the two. *)
@@ -7,7 +8,7 @@ From Coq Require Import QArith.
 Close Scope Q_scope.
 From Coq Require Import ZArith Reals List Permutation Sorted.
 Import ListNotations.
-From PV Require Import Base.Num Model.LieGroup Model.Cloud Proofs.Cloud.
+From PV Require Import Base.Num Model.LieGroup Model.Cloud Proofs.Cloud Proofs.Cloud2 Proofs.Cloud3 Proofs.Cloud4 Proofs.Cloud5.
 Local Open Scope R_scope.
 #[local] Remove Hints NumQ NumZ : typeclass_instances.
 
@@ -264,3 +265,303 @@ Theorem C18_reprojerr_sum_refuted : forall tiny, 0 < tiny <= 1 ->
   exists (K : cloudR) (p px : vecR), px <> point2pixel1 tiny K None p /\ reproj_sum1_old tiny K None p px = 0.
 Proof. exact reproj_sum_refuted. Qed.
 Print Assumptions C18_reprojerr_sum_refuted.
+
+(* ==================================================================================================
+   Second round (Proofs/Cloud2.v, Cloud3.v, Cloud4.v): weaker hypotheses, all-input forms, guards.
+   ================================================================================================== *)
+
+(* ------------------------------------------------------------------ knn: the contract pins the answer *)
+(* without ties in the row the topk contract has exactly one solution: whatever torch returns (the
+   tie checks it against the contract) is the model's answer, indices included *)
+Theorem C18_topk_contract_unique : forall (row : vecR) k (res res' : list (R * nat)),
+  NoDup row -> topk_contract row k res -> topk_contract row k res' -> res = res'.
+Proof. exact topk_contract_unique. Qed.
+Print Assumptions C18_topk_contract_unique.
+
+(* ties allowed: a valid selection for the permuted row, with its indices mapped through the
+   permutation, is a valid selection for the original row *)
+Theorem C18_topk_contract_perm : forall (row : vecR) (sigma : list nat) k (res' : list (R * nat)),
+  Permutation sigma (seq 0 (length row)) ->
+  topk_contract (map (fun i => nth i row 0) sigma) k res' ->
+  topk_contract row k (map (fun vj => (fst vj, nth (snd vj) sigma 0%nat)) res').
+Proof. exact topk_contract_perm. Qed.
+Print Assumptions C18_topk_contract_perm.
+
+(* knn on a permuted neighbour cloud nbr' = nbr[sigma], no ties: the same distances, and the index
+   returned into nbr' is carried by sigma to the index returned into nbr *)
+Theorem C18_knn_index_equivariant : forall (o : ord) (ref nbr : cloudR) (sigma : list nat) k,
+  Permutation sigma (seq 0 (length nbr)) -> (k <= length nbr)%nat ->
+  (forall r, In r ref -> NoDup (map (Rdist o r) nbr)) ->
+  exists res res', knn_gen (Rdist o) ref nbr k = Some res /\
+    knn_gen (Rdist o) ref (map (fun i => nth i nbr []) sigma) k = Some res' /\
+    Forall2 (fun row row' => row = map (fun vj => (fst vj, nth (snd vj) sigma 0%nat)) row') res res'.
+Proof. intros o. exact (knn_index_equivariant (Rdist o)). Qed.
+Print Assumptions C18_knn_index_equivariant.
+
+Example C18_knn_index_example : forall r, In r [[0]] -> NoDup (map (Rdist L1 r) [[1]; [3]]).
+Proof. exact knn_index_example. Qed.
+
+(* ------------------------------------------------------------------ nbr_filter, remaining cases *)
+(* order-preserving equivariance: on a permuted cloud the same predicate decides every point, the
+   kept rows keep the order of the permuted cloud and the mask is permuted like the input *)
+Theorem C18_nbr_filter_equivariant : forall o pd (pts pts' : cloudR) nbr r, Permutation pts pts' ->
+  nbr_filter o pd pts' nbr r = (filter (nbr_keep o pd pts nbr r) pts', map (nbr_keep o pd pts nbr r) pts').
+Proof. exact nbr_filter_equiv. Qed.
+Print Assumptions C18_nbr_filter_equivariant.
+
+Theorem C18_nbr_filter_mask_equivariant : forall o pd (pts : cloudR) (sigma : list nat) nbr r,
+  Permutation sigma (seq 0 (length pts)) ->
+  snd (nbr_filter o pd (map (fun i => nth i pts []) sigma) nbr r) =
+  map (fun i => nth i (snd (nbr_filter o pd pts nbr r)) false) sigma.
+Proof. exact nbr_filter_mask_equiv. Qed.
+Print Assumptions C18_nbr_filter_mask_equivariant.
+
+(* thresholds outside 1..N-1: nbr >= N removes everything (any radius, also the empty cloud);
+   nbr <= 0 with radius >= 0 keeps everything *)
+Theorem C18_nbr_filter_degenerate : forall o pd (pts : cloudR) nbr r,
+  ((Z.of_nat (length pts) <= nbr)%Z -> nbr_filter o pd pts nbr r = ([], map (fun _ => false) pts)) /\
+  (0 <= r -> (nbr <= 0)%Z -> nbr_filter o pd pts nbr r = (pts, map (fun _ => true) pts)).
+Proof. intros. split; [apply nbr_filter_all_removed | apply nbr_filter_all_kept]. Qed.
+Print Assumptions C18_nbr_filter_degenerate.
+
+(* radius < 0 (outside the hypothesis of C18_nbr_filter_spec): no point is within the radius of
+   itself, the count is -1 for every point ... *)
+Theorem C18_nbr_filter_negative_radius : forall o pd (pts : cloudR) nbr r p, r < 0 ->
+  nbr_keep o pd pts nbr r p = (nbr <=? -1)%Z.
+Proof. exact nbr_keep_neg_radius. Qed.
+Print Assumptions C18_nbr_filter_negative_radius.
+(* ... so the clause "kept iff at least nbr OTHER points within the radius" is false there: the
+   single point of a 1-point cloud has 0 >= nbr = 0 others within radius -1 but is removed *)
+Theorem C18_nbr_filter_negative_radius_refuted :
+  exists (pts : cloudR) (nbr : Z) (r : R) (p : vecR),
+    pts = [] ++ p :: [] /\ (nbr <= Z.of_nat (n_within L2 1 r p ([] ++ [])))%Z /\
+    nbr_filter L2 1 pts nbr r = ([], [false]).
+Proof. exact nbr_filter_neg_radius_refuted. Qed.
+Print Assumptions C18_nbr_filter_negative_radius_refuted.
+
+(* ------------------------------------------------------------------ voxel_filter: guards, geometry *)
+(* raises exactly on the empty cloud or a zero voxel size (both variants raise there; for the other
+   inputs C18_voxel_filter_spec / C18_voxel_filter_random_spec give the result) *)
+Theorem C18_voxel_filter_raises : forall unique argsort draws (pts : cloudR) (voxel : vecR),
+  (voxel_filter unique pts voxel = None <-> pts = [] \/ Exists (fun v => v = 0) voxel) /\
+  (pts = [] \/ Exists (fun v => v = 0) voxel -> voxel_filter_random unique argsort draws pts voxel = None).
+Proof. intros. split; [apply voxel_filter_none | apply voxel_filter_random_raises]. Qed.
+Print Assumptions C18_voxel_filter_raises.
+
+(* the shift is the coordinate-wise minimum of the cloud (a lower bound that is attained) *)
+Theorem C18_voxel_origin_is_min : forall (pts : cloudR) (voxel : vecR) j,
+  pts <> [] -> Forall (fun p => (length voxel <= length p)%nat) pts -> (j < length voxel)%nat ->
+  length (vox_minp pts voxel) = length voxel /\
+  (forall p, In p pts -> nth j (vox_minp pts voxel) 0 <= nth j p 0) /\
+  (exists p, In p pts /\ nth j (vox_minp pts voxel) 0 = nth j p 0).
+Proof. exact vox_minp_spec. Qed.
+Print Assumptions C18_voxel_origin_is_min.
+
+(* what "voxel" means: coordinate j of the integer index of p is c iff p lies in the |c|-th
+   half-open cell of width |voxel_j| above the minimum; c has the sign of voxel_j.  (Truncation
+   toward zero of a non-negative quotient; negative sizes mirror the numbering.) *)
+Theorem C18_voxel_cell : forall (pts : cloudR) (voxel : vecR) (p : vecR) j (c : Z),
+  Forall (fun q => (length voxel <= length q)%nat) pts -> Forall (fun v => v <> 0) voxel ->
+  In p pts -> (j < length voxel)%nat ->
+  let m := nth j (vox_minp pts voxel) 0 in
+  let v := nth j voxel 0 in
+  nth j (vox_of pts voxel p) 0%Z = c <->
+  ((if Rlt_dec v 0 then (c <= 0)%Z else (0 <= c)%Z) /\
+   IZR (Z.abs c) * Rabs v <= nth j p 0 - m < (IZR (Z.abs c) + 1) * Rabs v).
+Proof. exact vox_cell. Qed.
+Print Assumptions C18_voxel_cell.
+
+(* every reported voxel is occupied (the centroid never divides by 0), every point belongs to
+   exactly one reported voxel, and the count reported for voxel k is its number of members *)
+Theorem C18_voxel_partition : forall unique, uniq_contract unique ->
+  forall (pts : cloudR) (voxel : vecR),
+  let keys := fst (unique (map (vox_of pts voxel) pts)) in
+  let inv := snd (unique (map (vox_of pts voxel) pts)) in
+  (forall key, In key keys -> vox_members pts voxel key <> []) /\
+  (forall p, In p pts -> exists key, In key keys /\ In p (vox_members pts voxel key) /\
+                                     forall key', In p (vox_members pts voxel key') -> key' = key) /\
+  (forall k, (k < length keys)%nat ->
+     length (filter (Nat.eqb k) inv) = length (vox_members pts voxel (nth k keys []))).
+Proof.
+  intros unique Hu pts voxel. split; [|split].
+  - apply vox_members_nonempty, Hu.
+  - apply vox_members_cover, Hu.
+  - apply (vox_count_members unique Hu).
+Qed.
+Print Assumptions C18_voxel_partition.
+
+(* random=True over every possible random choice, the bound on the draws stated on the members:
+   whatever randint returns below the size of voxel k, row k is a member of voxel k *)
+Theorem C18_voxel_filter_random_spec_members : forall unique argsort, uniq_contract unique -> argsort_contract argsort ->
+  forall (draws : list nat) (pts : cloudR) (voxel : vecR),
+  Forall (fun v => v <> 0) voxel -> pts <> [] ->
+  let keys := fst (unique (map (vox_of pts voxel) pts)) in
+  length draws = length keys ->
+  (forall k, (k < length keys)%nat -> (nth k draws 0 < length (vox_members pts voxel (nth k keys [])))%nat) ->
+  exists sel, voxel_filter_random unique argsort draws pts voxel = Some sel /\ length sel = length keys /\
+              forall k, (k < length keys)%nat -> In (nth k sel []) (vox_members pts voxel (nth k keys [])).
+Proof. intros unique argsort Hu Ha. exact (voxel_filter_random_spec_members unique Hu argsort Ha). Qed.
+Print Assumptions C18_voxel_filter_random_spec_members.
+
+(* the hypotheses on the draws are satisfiable for EVERY admissible cloud (all-zero draws) *)
+Theorem C18_voxel_filter_random_nonvacuous : forall unique argsort, uniq_contract unique -> argsort_contract argsort ->
+  forall (pts : cloudR) (voxel : vecR), Forall (fun v => v <> 0) voxel -> pts <> [] ->
+  let keys := fst (unique (map (vox_of pts voxel) pts)) in
+  exists sel, voxel_filter_random unique argsort (repeat 0%nat (length keys)) pts voxel = Some sel /\
+              length sel = length keys /\
+              forall k, (k < length keys)%nat -> In (nth k sel []) (vox_members pts voxel (nth k keys [])).
+Proof. intros unique argsort Hu Ha. exact (voxel_filter_random_zero_draws unique Hu argsort Ha). Qed.
+Print Assumptions C18_voxel_filter_random_nonvacuous.
+
+(* ------------------------------------------------------------------ knn_filter, weakest no-tie hypothesis *)
+(* both branches under "no tie at the k-th neighbour" only: exactly k+1 points have fewer than k+1
+   points strictly closer.  Duplicate points and ties elsewhere are allowed (C18_boundary_example);
+   the pairwise-different hypothesis of C18_knn_filter_spec implies this one. *)
+Theorem C18_knn_filter_spec_boundary : forall o pd (pts : cloudR) k radius,
+  (S k <= length pts)%nat ->
+  (forall p, In p pts -> length (knn_nbhd (Rpdist o pd) k pts p) = S k) ->
+  knn_filter o pd pts k radius =
+  Some (map (fun p => vmean (length p) (knn_nbhd (Rpdist o pd) k pts p))
+            (match radius with None => pts | Some r => filter (nbr_keep o pd pts (Z.of_nat k) r) pts end)).
+Proof. exact knn_filter_spec_bd_R. Qed.
+Print Assumptions C18_knn_filter_spec_boundary.
+
+(* with no hypothesis on ties at all: the neighbourhood has at least k+1 points, contains p, and
+   every point in it is strictly closer to p than every point outside *)
+Theorem C18_knn_nbhd_props_boundary : forall o pd (pts : cloudR) k p,
+  (S k <= length pts)%nat -> In p pts ->
+  (S k <= length (knn_nbhd (Rpdist o pd) k pts p))%nat /\ In p (knn_nbhd (Rpdist o pd) k pts p) /\
+  (forall q q', In q (knn_nbhd (Rpdist o pd) k pts p) -> In q' pts -> ~ In q' (knn_nbhd (Rpdist o pd) k pts p) ->
+                Rpdist o pd p q < Rpdist o pd p q').
+Proof. exact knn_nbhd_props_bd. Qed.
+Print Assumptions C18_knn_nbhd_props_boundary.
+
+Theorem C18_no_ties_implies_boundary : forall o pd (pts : cloudR) k p,
+  (S k <= length pts)%nat -> NoDup (map (Rpdist o pd p) pts) ->
+  length (knn_nbhd (Rpdist o pd) k pts p) = S k.
+Proof. exact nodup_implies_bd. Qed.
+Print Assumptions C18_no_ties_implies_boundary.
+
+Example C18_boundary_example :
+  let pts := [[0]; [0]; [5]; [5]] in
+  (forall p, In p pts -> length (knn_nbhd (Rpdist L1 1) 1 pts p) = 2%nat) /\
+  ~ NoDup (map (Rpdist L1 1 [0]) pts).
+Proof. exact boundary_example. Qed.
+
+(* the radius branch for EVERY input (ties, duplicates, k + 1 > N): the rows of the no-radius
+   output selected by nbr_filter's mask with threshold k *)
+Theorem C18_knn_filter_radius_decomposition : forall o pd (pts : cloudR) k r,
+  knn_filter o pd pts k (Some r) =
+  option_map (fun out => mask_select out (map (nbr_keep o pd pts (Z.of_nat k) r) pts))
+             (knn_filter o pd pts k None).
+Proof. exact knn_filter_radius_decomp. Qed.
+Print Assumptions C18_knn_filter_radius_decomposition.
+
+(* radius branch, ties allowed: one row per retained point, the mean of a selection satisfying the
+   topk contract on that point's distance row *)
+Theorem C18_knn_filter_radius_spec_ties : forall o pd (pts : cloudR) k r, (S k <= length pts)%nat ->
+  exists out, knn_filter o pd pts k (Some r) = Some out /\
+    Forall2 (fun p row => exists res, topk_contract (map (pdist o pd p) pts) (S k) res /\
+                row = vmean (length p) (map (fun j => nth j pts []) (map snd res)))
+            (filter (nbr_keep o pd pts (Z.of_nat k) r) pts) out.
+Proof. exact knn_filter_radius_spec_ties. Qed.
+Print Assumptions C18_knn_filter_radius_spec_ties.
+
+(* permutation equivariance, both branches, boundary hypothesis: row-wise (the output row of a
+   point and whether it is retained do not depend on the order) and as multisets *)
+Theorem C18_knn_filter_equivariant : forall o pd (pts pts' : cloudR) k radius,
+  (S k <= length pts)%nat ->
+  (forall p, In p pts -> length (knn_nbhd (Rpdist o pd) k pts p) = S k) -> Permutation pts pts' ->
+  knn_filter o pd pts' k radius =
+  Some (map (fun p => vmean (length p) (knn_nbhd (Rpdist o pd) k pts p))
+            (match radius with None => pts' | Some r => filter (nbr_keep o pd pts (Z.of_nat k) r) pts' end)).
+Proof. exact knn_filter_equiv_bd. Qed.
+Print Assumptions C18_knn_filter_equivariant.
+
+Theorem C18_knn_filter_perm_boundary : forall o pd (pts pts' : cloudR) k radius,
+  (S k <= length pts)%nat ->
+  (forall p, In p pts -> length (knn_nbhd (Rpdist o pd) k pts p) = S k) -> Permutation pts pts' ->
+  exists out out', knn_filter o pd pts k radius = Some out /\
+                   knn_filter o pd pts' k radius = Some out' /\ Permutation out out'.
+Proof. exact knn_filter_perm_bd. Qed.
+Print Assumptions C18_knn_filter_perm_boundary.
+
+(* ------------------------------------------------------------------ camera helpers at the guards *)
+(* homo2cart for every last coordinate: division by w when |w| >= tiny, otherwise by -tiny (w < 0)
+   or +tiny (w >= 0, in particular w = 0) *)
+Theorem C18_homo2cart_spec : forall tiny (xs : vecR) (w : R),
+  homo2cart tiny (xs ++ [w]) =
+  map (fun x => x / (if Rle_dec tiny (Rabs w) then w else if Rlt_dec w 0 then - tiny else tiny)) xs.
+Proof. exact homo2cart_spec. Qed.
+Print Assumptions C18_homo2cart_spec.
+
+Theorem C18_cart_homo_normalise : forall tiny (xs : vecR) (w : R), 0 < tiny -> tiny <= Rabs w ->
+  cart2homo (homo2cart tiny (xs ++ [w])) = map (fun x => x / w) (xs ++ [w]).
+Proof. exact cart_homo_normalise. Qed.
+Print Assumptions C18_cart_homo_normalise.
+
+(* the depth guard of C18_pixel_point_inverse is needed: at depth 0 every pixel unprojects to the
+   origin, which projects to pixel (0, 0); a point with z = 0 comes back as the origin *)
+Theorem C18_pixel_point_depth_zero_refuted : forall tiny, 0 < tiny ->
+  (exists fx fy cx cy (pix : cloudR) (depth : vecR) pts, fx <> 0 /\ fy <> 0 /\
+     Forall (fun px => length px = 2%nat) pix /\ length depth = length pix /\
+     pixel2point (pinhole fx fy cx cy) pix depth = Some pts /\
+     point2pixel tiny (pinhole fx fy cx cy) None pts <> pix) /\
+  (exists fx fy cx cy (p : vecR), fx <> 0 /\ fy <> 0 /\ length p = 3%nat /\
+     pixel2point (pinhole fx fy cx cy) (point2pixel tiny (pinhole fx fy cx cy) None [p]) [nth 2 p 0]
+     = Some [[0; 0; 0]] /\ p <> [0; 0; 0]).
+Proof.
+  intros tiny Ht. split; [now apply pixel_point_depth_zero_refuted | now apply point_pixel_depth_zero_refuted].
+Qed.
+Print Assumptions C18_pixel_point_depth_zero_refuted.
+
+(* the pinhole form is needed: pixel2point reads only fx, fy, cx, cy, so with a skew entry
+   K[0][1] <> 0 (non-zero focal lengths, last row 0 0 1, depth 1) the round trip fails *)
+Theorem C18_pixel_point_skew_refuted : forall tiny, 0 < tiny <= 1 ->
+  exists (K : cloudR) (p p' : vecR), kij K 0 0 <> 0 /\ kij K 1 1 <> 0 /\ nth 2 K [] = [0; 0; 1] /\
+    length p = 3%nat /\ tiny <= Rabs (nth 2 p 0) /\
+    pixel2point K (point2pixel tiny K None [p]) [nth 2 p 0] = Some [p'] /\ p' <> p.
+Proof. exact pixel_point_skew_refuted. Qed.
+Print Assumptions C18_pixel_point_skew_refuted.
+
+(* all extrinsics: projecting with extrinsics X and unprojecting with the camera-frame depths
+   returns the points in the camera frame *)
+Theorem C18_pixel_point_inverse_extrinsics : forall tiny fx fy cx cy X (pts : cloudR),
+  0 < tiny -> fx <> 0 -> fy <> 0 ->
+  let K := pinhole fx fy cx cy in
+  Forall (fun p => tiny <= Rabs (nth 2 (extr_act (Some X) p) 0)) pts ->
+  pixel2point K (point2pixel tiny K (Some X) pts) (map (fun p => nth 2 (extr_act (Some X) p) 0) pts)
+  = Some (map (extr_act (Some X)) pts).
+Proof. exact pixel_point_inverse_extr. Qed.
+Print Assumptions C18_pixel_point_inverse_extrinsics.
+
+(* the centroid returned for a voxel lies in that voxel's cell on every voxel coordinate (it would
+   be assigned the same integer index): rectangular N x D cloud, any non-zero sizes *)
+Theorem C18_voxel_centroid_in_cell : forall unique, uniq_contract unique ->
+  forall (pts : cloudR) (voxel : vecR) D key j,
+  Forall (fun p => length p = D) pts -> (length voxel <= D)%nat -> Forall (fun v => v <> 0) voxel ->
+  In key (fst (unique (map (vox_of pts voxel) pts))) -> (j < length voxel)%nat ->
+  let c := nth j key 0%Z in
+  let m := nth j (vox_minp pts voxel) 0 in
+  let v := nth j voxel 0 in
+  IZR (Z.abs c) * Rabs v <= nth j (vmean D (vox_members pts voxel key)) 0 - m < (IZR (Z.abs c) + 1) * Rabs v.
+Proof. exact centroid_in_cell. Qed.
+Print Assumptions C18_voxel_centroid_in_cell.
+
+(* pixel2point raises exactly when K[0][0] or K[1][1] is zero -- any intrinsics, pixels, depths *)
+Theorem C18_pixel2point_raises_iff : forall (K pix : cloudR) (depth : vecR),
+  pixel2point K pix depth = None <-> kij K 0 0 = 0 \/ kij K 1 1 = 0.
+Proof. exact pixel2point_none_iff. Qed.
+Print Assumptions C18_pixel2point_raises_iff.
+
+(* knn_filter, BOTH branches, NO hypothesis on ties, true norm: one output row per retained point
+   (all points / those with at least k others within the radius), each the mean of the rows at k+1
+   distinct indices forming a valid k+1-nearest selection for that point; raises iff k + 1 > N
+   (C18_knn_filter_spec_ties) *)
+Theorem C18_knn_filter_spec_ties_true_norm : forall o pd (pts : cloudR) k radius, (S k <= length pts)%nat ->
+  exists out, knn_filter o pd pts k radius = Some out /\
+    Forall2 (fun p row => exists res, topk_contract (map (Rpdist o pd p) pts) (S k) res /\
+                row = vmean (length p) (map (fun j => nth j pts []) (map snd res)))
+            (match radius with None => pts | Some r => filter (nbr_keep o pd pts (Z.of_nat k) r) pts end) out.
+Proof. exact knn_filter_spec_ties_R. Qed.
+Print Assumptions C18_knn_filter_spec_ties_true_norm.
